@@ -76,6 +76,9 @@ def check(ctx):
     ctx.count("twin_pairs", n_tw)
     ctx.floor("twin_pairs", 85, "functions that exist in both array engines")
     check_loose(ctx, all_loose())
+    from .C23 import stage_output_name
+
+    stage_output_name(ctx)
 
 
 VARIANTS = [
